@@ -64,6 +64,8 @@ KindStep(t, k) ==
     [] k = "wrongtype" -> b @@ [kind |-> "ok", wrongtype |-> 1]
     [] k = "wrongaddr" -> b @@ [kind |-> "ok", wrongaddr |-> 1]
     [] k = "flipcase" -> b @@ [kind |-> "ok", flipcase |-> 1]
+    [] k = "stale_ok" -> b @@ [kind |-> "ok", nth |-> 1]      \* reply to the FIRST transmission of the request
+    [] k = "dup_ok" -> b @@ [kind |-> "ok", copies |-> 2]
     [] k = "formerr_noopt" -> b @@ [kind |-> "formerr", noopt |-> 1]
     [] k = "nx_nosoa" -> b @@ [kind |-> "nx", soa |-> 0]
     [] k = "ok_ttl0" -> b @@ [kind |-> "ok", ttl |-> 0]
